@@ -56,6 +56,18 @@ class C10(Prop):
             else:
                 dtype, vals, enum = tc.gen_string_feature(rng, n)
                 c.update(fkind="string", kind=dtype, feature=vals, enum=enum, xcontainer="polars")
+            if rng.random() < 0.08:
+                # a huge common offset with a small spread: variances / standard errors must be computed stably
+                off = rng.choice([1e8, 1e9])
+                c["y"] = [off + rng.randint(-3, 3) for _ in range(n)]
+                c["preds"] = [[off + rng.randint(-3, 3) for _ in range(n)] for _ in c["preds"]]
+                c["pred"] = c["preds"][0]
+                c["offset"] = True
+            if c["fkind"] == "numeric" and c["kind"] == "int" and c["xcontainer"] == "numpy" and rng.random() < 0.5:
+                # the same whole numbers in an unsigned numpy matrix (bin means are not whole numbers)
+                c["feature"] = [abs(v) for v in c["feature"]]
+                c["other"] = [abs(v) for v in c["other"]]
+                c["xcontainer"] = "numpy_uint"
             if c["w"] is not None and rng.random() < 0.3:
                 c["w"] = tc.zero_some_weights(rng, c["feature"], c["w"])
                 if c["n_max"] < n and sum(c["w"][int(i)] for i in np.random.default_rng(c["seed"]).choice(n, size=c["n_max"], replace=False)) == 0:
@@ -66,6 +78,8 @@ class C10(Prop):
         import polars as pl
 
         ser = feature_series(case)
+        if case["xcontainer"] == "numpy_uint":
+            return np.column_stack([np.array([int(v) for v in fvalues(case)], dtype=np.uint16), np.array([int(v) for v in case["other"]], dtype=np.uint16)]), 0
         if case["xcontainer"] == "numpy":
             vals = [math.nan if v is None else float(v) for v in fvalues(case)]
             # an integer feature stays an integer column (numpy's bin-width estimators treat integers specially); kinds
@@ -265,6 +279,11 @@ class C10(Prop):
                     return f"row {k}: {nm} mean {a[nm]!r} vs {float(dec(b['stats'][i][0]))!r}"
             for nm, i in (("so", 0), ("sp", 1)):
                 se = math.sqrt(float(dec(b["stats"][i][1])))
+                if case.get("offset"):
+                    # compared at the accuracy a numerically stable (two-pass) formula achieves at this magnitude
+                    if not feq(a[nm], se, 1e-5):
+                        return f"row {k}: {nm} stderr {a[nm]!r} vs {se!r} (large common offset)"
+                    continue
                 if not (feq(a[nm], se) or abs(a[nm] - se) < 1e-12):
                     return f"row {k}: {nm} stderr {a[nm]!r} vs {se!r}"
         return None
@@ -285,7 +304,7 @@ class C10(Prop):
             for r, bm, bmod in zip(io["rows"], io["bias"], io.get("bias_models", [None] * len(io["rows"]))):
                 if r.get("model") != bmod:
                     return f"row labelled {r.get('model')!r} faces compute_bias row labelled {bmod!r}"
-                if not feq(r["yp"] - r["yo"], bm) and abs(r["yp"] - r["yo"] - bm) > 1e-9:
+                if not feq(r["yp"] - r["yo"], bm) and abs(r["yp"] - r["yo"] - bm) > (1e-15 * max(abs(r["yp"]), 1e6) * 100 if case.get("offset") else 1e-9):
                     return f"y_pred_mean - y_obs_mean = {r['yp'] - r['yo']!r} differs from compute_bias's bias_mean {bm!r} (model {bmod!r})"
         if nm > 1 and case["with_pd"]:
             # the partial dependence does not depend on the forecast column: every model block must carry the same values
@@ -313,7 +332,7 @@ class C10(Prop):
         if len(io["bias"]) != len(rows):
             return "compute_bias has a different number of rows for the same call"
         for r, bm in zip(rows, io["bias"]):
-            if not feq(r["yp"] - r["yo"], bm) and abs(r["yp"] - r["yo"] - bm) > 1e-9:
+            if not feq(r["yp"] - r["yo"], bm) and abs(r["yp"] - r["yo"] - bm) > (1e-15 * max(abs(r["yp"]), 1e6) * 100 if case.get("offset") else 1e-9):
                 return f"y_pred_mean - y_obs_mean = {r['yp'] - r['yo']!r} differs from compute_bias's bias_mean {bm!r}"
         if case["fkind"] == "numeric":
             vals = [None if (v is None or v == "nan") else float(v) for v in fvalues(case)]
